@@ -81,6 +81,9 @@ FAMILY = [
     ("tokenizer_lambda", "LAMBDA:up", "LAMBDA:low", "<p>Hello</p>", "PageTemplate", "PageTemplate"),
     # ... or classes made by one factory (same module, same qualified name)
     ("expression_types_factory", "FACT:A-", "FACT:B-", '<p tal:content="mark:name">x</p>', "PageTemplate", "PageTemplate"),
+    # an instance whose representation is the default one (class and
+    # address): the restarted process has a different one at the same address
+    ("expression_types_instance", "INST:Hello ", "INST:Bye ", '<p tal:content="greet:name">x</p>', "PageTemplate", "PageTemplate"),
     # the content type a template falls back to when its body does not
     # declare one decides between HTML and XML compilation
     ("default_content_type", None, "text/xml", '<input type="checkbox" checked="${c}" /><p>${name}</p>', "PageTemplate", "PageTemplate"),
@@ -125,6 +128,7 @@ FAMILY_BY_NAME = {f[0]: f for f in FAMILY}
 OPTION_OF = {
     "expression_types_partial": "expression_types",
     "expression_types_factory": "expression_types",
+    "expression_types_instance": "expression_types",
     "tokenizer_lambda": "tokenizer",
     "extra_builtins_value": "extra_builtins",
     "extra_builtins_more": "extra_builtins",
@@ -210,6 +214,22 @@ class QuoteExpr:
             "target = opening + str(target) + closing", target=target,
             opening=ast.Constant(self.opening),
             closing=ast.Constant(self.closing))
+
+
+class Greet:
+    """``greet:expr`` - a configured *instance* as expression type.  Its
+    representation is what ``object.__repr__`` gives, with one address for
+    all: two of them stand for the different objects that two processes
+    have at the same address (no process ever gets both)."""
+
+    def __init__(self, word):
+        self.word = word
+
+    def __repr__(self):
+        return "<sim.checks.c15.Greet object at 0x7f3eadee3830>"
+
+    def __call__(self, expression):
+        return QuoteExpr(self.word, "", expression)
 
 
 EXT_VERSION = ["1.0"]      # version of the add-on the running process has
@@ -316,6 +336,12 @@ class C15(CheckBase):
         b = super().budget(tier)
         return b
 
+    def _new_token(self):
+        """A process draws its token when it imports chameleon."""
+        self._tokens = getattr(self, "_tokens", 0) + 1
+        if hasattr(self.zt, "_PROCESS_TOKEN"):
+            self.zt._PROCESS_TOKEN = "%032x" % self._tokens
+
     # -- building templates ----------------------------------------------------
     def _cls(self, name: str):
         zt = self.zt
@@ -354,6 +380,10 @@ class C15(CheckBase):
                     _MARKS[m_] = make_mark(m_)
                 v = dict(self.zt.PageTemplate.expression_types,
                          mark=_MARKS[m_])
+            if k == "expression_types" and isinstance(v, str) and \
+                    v.startswith("INST:"):
+                v = dict(self.zt.PageTemplate.expression_types,
+                         greet=Greet(v[5:]))
             if k == "expression_types" and v == "PY_AS_STRING":
                 from chameleon.tales import StringExpr
                 v = dict(self.zt.PageTemplate.expression_types,
@@ -566,7 +596,7 @@ class C15(CheckBase):
             case["templates"] = [ta, tb]
             mode = ch.pick(["same", "restart", "two"], "mode")
             if name in ("process_builtins", "package_version",
-                        "package_version_late"):
+                        "package_version_late", "expression_types_instance"):
                 mode = "restart"    # (one snapshot / installation per process)
             # a live instance is given the other configuration (attribute
             # assignment, then write(body)): possible when both are string
@@ -574,7 +604,8 @@ class C15(CheckBase):
             # which they differ
             ca_, cb_ = ta["config"], tb["config"]
             if name not in ("process_builtins", "package_version",
-                            "package_version_late") and \
+                            "package_version_late",
+                            "expression_types_instance") and \
                     "file" not in ta and ta["cls"] == tb["cls"] and \
                     all(k in cb_ and cb_[k] is not None
                         for k in set(ca_) | set(cb_) if ca_.get(k) != cb_.get(k)) \
@@ -599,7 +630,8 @@ class C15(CheckBase):
                 case["phases"] = [
                     {"procs": [{"name": "A", "ops": full[:2]}],
                      "sched": {"kind": "fifo"}},
-                    {"procs": [{"name": "B", "ops": full[2:]}],
+                    {"procs": [{"name": "B", "ops": full[2:4] if name ==
+                                "expression_types_instance" else full[2:]}],
                      "sched": {"kind": "fifo"}}]
             else:
                 case["phases"] = [
@@ -974,11 +1006,14 @@ class C15(CheckBase):
         op_results: list = []
         used: set[int] = set()
         sched_sigs = []
+        self._tokens = 0
 
         for phno, ph in enumerate(case["phases"]):
             # (the processes of one concurrent phase are siblings forked
             # from one parent; a later phase is a restart)
             world.pyc_group = phno
+            # (a process draws its token when it imports chameleon)
+            self._new_token()
             spec = ph.get("sched", {"kind": "fifo"})
             if spec.get("kind") == "pctacc" and "fracs" in spec:
                 # the kind of call first (a lone rename as likely as one of
@@ -1101,6 +1136,8 @@ class C15(CheckBase):
             take_snapshot("phase%d" % phno)
 
         # observers: fresh processes on snapshot copies
+        # (one per template where no process can have both)
+        one_each = case.get("family") == "expression_types_instance"
         if not is_dry:
             for label, name in snapshots:
                 obs = world.new_proc("O" + name)
@@ -1108,6 +1145,8 @@ class C15(CheckBase):
                     loader = ModuleLoader(world.path(name))
                     for tid in sorted(used):
                         stats["observers"] += 1
+                        if one_each:
+                            self._new_token()
                         r = self._attempt(temps[tid], loader, world)
                         log.add("obs", label, tid, canonical(r)[:300])
                         ref = refs[tid][1] if refs[tid][0] == ["ok"] \
@@ -1121,6 +1160,8 @@ class C15(CheckBase):
             with world.as_proc(fin):
                 loader = ModuleLoader(world.path("cache"))
                 for tid in range(len(temps)):
+                    if one_each:
+                        self._new_token()
                     r = self._attempt(temps[tid], loader, world)
                     log.add("fin", tid, canonical(r)[:300])
                     ref = refs[tid][1] if refs[tid][0] == ["ok"] \
